@@ -18,6 +18,6 @@ rm -f "$vf/repo-link"; ln -s "$wt" "$vf/repo-link"
 cd "$vf" || exit 2
 for p in "$@"; do
   echo "=== $p"
-  VERIF_NO_EVIDENCE=1 ./check "$p" quick 2>&1 | grep -E 'VIOLATION|KNOWN-FINDING|class:|HARNESS|quick:' | head -12
+  VERIF_NO_EVIDENCE=1 ./check "$p" ${TIER:-quick} 2>&1 | grep -E 'VIOLATION|KNOWN-FINDING|class:|HARNESS|quick:|thorough:' | head -12
   echo "rc=${PIPESTATUS[0]}"
 done
